@@ -77,6 +77,14 @@ def prelude(w, d, rng, res):
         w.full_audit([col])
         w.put(col, "lower.ics", gen.ical(rng, u2, t6, rich=False), op="put_uidconflict", uid=u2, token=t6)
         w.full_audit([col])
+    if col in w.cols:
+        # a member whose name begins with a dot is a member like any other (created, changed; left in place)
+        u3 = "dot-" + w.new_token()
+        t7, t8 = w.new_token(), w.new_token()
+        w.put(col, ".dot.ics", gen.ical(rng, u3, t7, rich=False), op="put_new", uid=u3, token=t7)
+        w.full_audit([col])
+        w.put(col, ".dot.ics", gen.ical(rng, u3, t8, rich=False), op="put_change", uid=u3, token=t8)
+        w.full_audit([col])
     res.count("scripted_preludes")
 
 
